@@ -65,6 +65,17 @@ CLAIMED = {
          'is refuted by theorem C19_negative_axis_old_refuted. No axioms.',
     technique='Coq proof (list/Z arithmetic with lia, invariants over the rule fold) + per-run model-vs-implementation correspondence by vm_compute',
     ref='DESIGN.md section 5, C19'),
+  'C20': dict(
+    text='Theorems: pad_shard_unpad returns map f x for every batch size, device count >= 1 and min_device_batch (padding arithmetic as coded, chunking lemmas shared with C10); '
+         '_invert_perm is the inverse permutation; prefetch_to_device (as repaired) yields the items in order then stop/the exception for every length, failing position and '
+         'size >= 1; PrefetchIterator as a labelled transition system (next outside the lock, put/wake/fail/get critical sections) satisfies, for EVERY schedule, that the '
+         'consumer has seen a prefix of the items in order followed - only after all of them - by StopIteration or the source\'s exception (inductive invariant). '
+         'Tied to /repo per run: a cooperative threading substitute drives the real PrefetchIterator through all schedules of small sources (thousands), each recorded '
+         'interleaving is replayed in the Coq transition system; grids for padding, scan_in_dim vs nested loops, reshapes.',
+    note='Trusted: Coq kernel, vm_compute, harness incl. coop.py (cooperative scheduler), jaxcompat. Not exhibited by the model: OS preemption inside a critical section, '
+         'liveness (fairness). scan_in_dim beyond the permutation lemma is checked by oracle only. F5 and F6 fixed in /repo. No axioms.',
+    technique='Coq proof (transition-system invariant over all schedules; list/arith lemmas) + systematic schedule exploration replayed in the model by vm_compute',
+    ref='DESIGN.md section 5, C20'),
 }
 REASON_UNBUILT = 'check not built yet in this round (planned: see DESIGN.md section 5); nothing is claimed for it'
 
